@@ -6,11 +6,11 @@ CONSTANTS
   Keys = {1, 2}
   InitList <- MCInitList
   SaltSz <- MCSaltSz
-  Senders = {1, 2, 6}
-  Targets = {1, 2}
+  Senders = {1, 2, 3, 6}
+  Targets = {1, 2, 3}
   DnsPort = {2, 6}
-  Allowed = {1, 2}
-  Unsendable = {}
+  Allowed = {1, 2, 3}
+  Unsendable = {3}
   DisarmFirst = TRUE
   Fam <- MCFam
   DgAlpha <- DgC14
